@@ -4,6 +4,7 @@ CONSTANTS
   MaxN = 3
   AllSubsets = FALSE
   Refs = {0, 1}
+  SymKinds = {}
   Canon = TRUE
   ValTab <- ValsPrime
   Kinds = {"R","V","VL","I","IL"}
